@@ -153,7 +153,15 @@ def check_case(contract, fn, kwargs, module_globals):
         return eval(compile_expr(src2), e)
     fail = None
     try:
-        if exc is None:
+        for p_, v_ in old.items():
+            if p_ not in contract.modifies and p_ in after and norm(after[p_]) != norm(v_):
+                fail = dict(kind="frame", clause="parameter %s is not in `modifies` but was changed" % p_)
+        for p_ in old:
+            if p_ not in contract.modifies:
+                env[p_] = old[p_]
+        if fail is not None:
+            pass
+        elif exc is None:
             for i, e in enumerate(contract.ensures):
                 if not ev(e):
                     fail = dict(kind="post", clause=e)
